@@ -224,4 +224,24 @@ def check(fx, rep, tier):
             rep.ok('R16.3', i.rule + '|' + i.key, i.where, 'known finding of C14 (reported there): ' + i.msg[:120], nontrivial=False)
         else:
             (rep.ok if i.ok else rep.bad)('R16.3', i.rule + '|' + i.key, i.where, i.msg, i.detail)
+    # R16.4 doc comments: every #[doc] attribute of the item is collected
+    rep.rule('R16.4', 'doc comments become comments: the function that collects #[doc] attributes visits every attribute of the item (a filter over all of them) - no '
+                      'take_while / skip_while / find / early exit that would drop doc lines standing after another attribute')
+    n4 = 0
+    for fn, n, impl in A.all_fns(fx.tpl, 'zlink-macros/src'):
+        body_nodes = list(A.nodes(n.get('body') or []))
+        is_doc = any(x.get('k') == 'mcall' and x.get('method') == 'is_ident' and any(a.get('k') == 'str' and a.get('value') == 'doc' for a in x.get('args') or []) for x in body_nodes)
+        if not is_doc or 'Attribute' not in (n.get('sig') or ''):
+            continue
+        n4 += 1
+        partial = sorted({x.get('method') for x in body_nodes if x.get('k') == 'mcall' and x.get('method') in
+                          ('take_while', 'skip_while', 'map_while', 'find', 'find_map', 'position', 'take', 'skip', 'nth', 'first', 'last', 'next', 'step_by', 'split_first', 'split_last')})
+        exits = [x for x in body_nodes if x.get('k') in ('break',)]
+        loops_with_return = [x for x in body_nodes if x.get('k') in ('for', 'while', 'loop') and any(y.get('k') == 'return' for y in A.nodes(x.get('body') or []))]
+        rep.check(not partial and not exits and not loops_with_return, 'R16.4', '%s|collects-every-doc-attribute' % n['name'], '%s:%s' % (fn, n.get('line')),
+                  '%s looks at every attribute and keeps those named `doc`' % n['name'],
+                  '%s does not visit every attribute of the item (%s): doc lines that stand after another attribute (`/// a`, `#[serde(..)]`, `/// b`) are dropped from the description'
+                  % (n['name'], ', '.join(partial) or 'early exit from the loop'))
+    if not n4:
+        rep.bad('R16.4', 'anchor', 'zlink-macros/src', 'no function collecting #[doc] attributes found')
     return META
